@@ -13,6 +13,8 @@ import (
 	"github.com/ohler55/ojg/oj"
 	"github.com/ohler55/ojg/pretty"
 	"github.com/ohler55/ojg/sen"
+	"verif/checks/c08/dupa"
+	"verif/checks/c08/dupb"
 	"verif/internal/mach"
 	"verif/internal/snap"
 )
@@ -122,6 +124,12 @@ func Groups() []*Group {
 			map[string]any{"x": int64(1), "y": "n"}, map[string]any{"x": int64(2), "y": "p"}, map[string]any{"x": int64(3), "y": "q"}}}
 	}
 	rec := alt.MustNewRecomposer("^", map[any]alt.RecomposeFunc{&Inner{}: nil, &Outer{}: nil, &Other{}: nil, &Holder{}: nil})
+	// two types with one short name (different packages) and two anonymous struct
+	// types (no name at all), all known to the recomposer before the calls start
+	_ = rec.RegisterComposer(&dupa.Point{}, nil)
+	_ = rec.RegisterComposer(&dupb.Point{}, nil)
+	_, _ = rec.Recompose(map[string]any{"v": 1}, &struct{ V int }{})
+	_, _ = rec.Recompose(map[string]any{"w": "s"}, &struct{ W string }{})
 	locExpr := jp.MustParseString("$.a[?(@.x > $.a[0].x)].y")
 	// a script whose list operand holds Go ints and a float32 (built with the
 	// constructors): evaluation has to leave the shared list as it is
@@ -141,6 +149,10 @@ func Groups() []*Group {
 				w := &slowWriter{}
 				err := oj.Write(w, long())
 				return string(w.got) + " / " + errText(err), nil
+			}},
+			{"oj.Marshal(unsupported)", func() (string, []byte) {
+				b, err := oj.Marshal(map[string]any{"f": func() {}})
+				return string(b) + " / " + errText(err), nil
 			}},
 			{"oj.Write(small)", func() (string, []byte) {
 				var b bytes.Buffer
@@ -186,6 +198,15 @@ func Groups() []*Group {
 				var in Inner
 				err := oj.Unmarshal([]byte(`{"x":5,"y":`), &in)
 				return fmt.Sprintf("%+v / %s", in, errText(err)), nil
+			}},
+			// the Must* forms on their failure path (a panic travels through the deferred Put)
+			{"oj.MustParse(invalid)", func() (s string, _ []byte) {
+				defer func() { s = fmt.Sprintf("panic: %v", recover()) }()
+				return mach.Canon(oj.MustParse([]byte(`{"a":[1,2,`))), nil
+			}},
+			{"oj.MustLoad(invalid)", func() (s string, _ []byte) {
+				defer func() { s = fmt.Sprintf("panic: %v", recover()) }()
+				return mach.Canon(oj.MustLoad(strings.NewReader(`[1,}`))), nil
 			}},
 			{"oj.Validate", func() (string, []byte) { return errText(oj.Validate([]byte(`[1,{"a":2}]`))), nil }},
 			{"oj.Tokenize", func() (string, []byte) {
@@ -240,6 +261,14 @@ func Groups() []*Group {
 				v, err := sen.ParseReader(strings.NewReader(`[1 2 {x:y}]`))
 				return mach.Canon(v) + " / " + errText(err), nil
 			}},
+			{"sen.MustParse(invalid)", func() (s string, _ []byte) {
+				defer func() { s = fmt.Sprintf("panic: %v", recover()) }()
+				return mach.Canon(sen.MustParse([]byte(`{a:[1 2`))), nil
+			}},
+			{"sen.MustParseReader(invalid)", func() (s string, _ []byte) {
+				defer func() { s = fmt.Sprintf("panic: %v", recover()) }()
+				return mach.Canon(sen.MustParseReader(strings.NewReader(`[1 }`))), nil
+			}},
 			{"sen.Unmarshal(malformed)", func() (string, []byte) {
 				var in Inner
 				err := sen.Unmarshal([]byte(`{x:5 y:`), &in)
@@ -282,6 +311,30 @@ func Groups() []*Group {
 				v, err := rec.Recompose(holderData())
 				return mach.Canon(alt.Decompose(v)) + " / " + errText(err), nil
 			}},
+			{"rec.Recompose(*dupa.Point)", func() (string, []byte) {
+				var p dupa.Point
+				_, err := rec.Recompose(map[string]any{"x": 4, "tag": "a"}, &p)
+				return fmt.Sprintf("%+v / %s", p, errText(err)), nil
+			}},
+			{"rec.Recompose(*dupb.Point)", func() (string, []byte) {
+				var p dupb.Point
+				_, err := rec.Recompose(map[string]any{"x": 5, "tag": "b"}, &p)
+				return fmt.Sprintf("%+v / %s", p, errText(err)), nil
+			}},
+			{"rec.Recompose(^Point)", func() (string, []byte) {
+				v, err := rec.Recompose(map[string]any{"^": "Point", "x": 6, "tag": "k"})
+				return fmt.Sprintf("%T %+v / %s", v, v, errText(err)), nil
+			}},
+			{"rec.Recompose(*struct{V})", func() (string, []byte) {
+				var p struct{ V int }
+				_, err := rec.Recompose(map[string]any{"v": 7}, &p)
+				return fmt.Sprintf("%+v / %s", p, errText(err)), nil
+			}},
+			{"rec.Recompose(*struct{W})", func() (string, []byte) {
+				var p struct{ W string }
+				_, err := rec.Recompose(map[string]any{"w": "t"}, &p)
+				return fmt.Sprintf("%+v / %s", p, errText(err)), nil
+			}},
 			{"gen.Node.Simplify", func() (string, []byte) {
 				return mach.Canon(gen.Array{gen.Int(1), gen.Object{"a": gen.String("b")}}.Simplify()), nil
 			}},
@@ -305,7 +358,9 @@ func Groups() []*Group {
 				return fmt.Sprint(sharedScript.Match(map[string]any{"x": int64(2), "y": "p"}), sharedScript.Match(map[string]any{"x": int64(0)})), nil
 			}},
 			{"Filter.Get", func() (string, []byte) { return mach.Canon(append(jp.R().C("a"), sharedFilter).Get(data())), nil }},
-			{"Expr.Locate", func() (string, []byte) { return fmt.Sprint(sharedExpr.Locate(data(), 0), locExpr.Locate(data(), 0)), nil }},
+			{"Expr.Locate", func() (string, []byte) {
+				return fmt.Sprint(sharedExpr.Locate(data(), 0), locExpr.Locate(data(), 0)), nil
+			}},
 			{"Expr.Walk", func() (string, []byte) {
 				var out []string
 				locExpr.Walk(data(), func(p jp.Expr, nodes []any) { out = append(out, p.String()+"="+mach.Canon(nodes[len(nodes)-1])) })
